@@ -56,8 +56,14 @@ def opValidate : OpFn := fun view inp out => do
   let sv := if view == "C03" then none else Validate.specVerdict attrs allowOther o.subjectTypes
   let specOk := match sv with | some b => b == o.ok | none => true
   let pureOk := view == "C09" || o.subjectUnchanged     -- purity is C03's clause
+  -- the same profile and subject through the database layer (AddProfile / PutConfig / validateAndMerge), sampled:
+  -- the run must be stopped exactly when the statement rejects the subject
+  let viaDb : Option Bool := (out.getObjValAs? Bool "okViaDb").toOption
+  let viaDbBroken : Bool := match out.getObjVal? "okViaDb" with | .ok (Json.str _) => true | _ => false
+  let dbOk := view == "C03" || (match viaDb, sv with | some d, some b => d == b | _, _ => true)
   let clause :=
-    if !specOk then
+    if !dbOk then "C09: through the database layer (AddProfile, validateAndMerge) the subject is accepted / rejected differently from the statement"
+    else if !specOk then
       (match sv with
        | some false => if (attrs.getD []).any (fun a => !a.optional && (match a.ty with | none => true | some t => !o.subjectTypes.contains t))
                        then "R2: a non-optional profile attribute is missing, yet accepted"
@@ -67,7 +73,8 @@ def opValidate : OpFn := fun view inp out => do
     else ""
   let br := (match sv with | some true => "acc" | some false => "rej" | none => "silent")
   let corr := view == "C03" || m == o.ok
-  pure { corr := corr, spec := specOk && pureOk, clause := if clause == "" && !corr then "verdict differs from model" else clause,
+  let corr := corr && !viaDbBroken
+  pure { corr := corr, spec := specOk && pureOk && dbOk, clause := if clause == "" && !corr then "verdict differs from model" else clause,
          nontrivial := attrs.isSome, branch := br, model := toJson m,
          feat := Json.mkObj [("allowOther", allowOther), ("hasList", attrs.isSome)] }
 
